@@ -33,8 +33,11 @@ class EcoreUtils(object):
             return not obj.resolved
         elif _isinstance(obj, _type):
             return True
+        # EClassifier (the metaclass level) also takes the Python classes of
+        # static metamodels; an EClass or EDataType *instance* used as a type
+        # inherits that hook but must not answer for it
         try:
-            return _type.__isinstance__(obj)
+            return _isinstance(_type, type) and _type.__isinstance__(obj)
         except AttributeError:
             return False
 
